@@ -136,8 +136,10 @@ def finish(prop, tier, seed, tasks, results, t0, meta, extra_results=None):
     print(f"[{prop}/{tier}] configs={len(tasks)} paths={agg['paths']} queries={nq} unsat={agg['unsat']} sat={agg['sat']} unknown={agg['unknown']} "
           f"validations={agg['validations']} solver_s={agg['solver_s']:.1f} wall_s={wall:.1f} errors={len(errors)} violations={len(violations)}")
     if vio_lines:
-        for l in vio_lines:
+        for l in vio_lines[:25]:
             print(l)
+        if len(vio_lines) > 25:
+            print(f"... and {len(vio_lines) - 25} more violations (all replay files are under replays/)")
         return EXIT_VIOLATION
     if errors:
         for e in errors[:20]:
